@@ -62,3 +62,16 @@ PROPS["C19"] = dict(
     ],
     assumptions=["no symbolic links inside the configured directories", "Unix path syntax"],
 )
+
+PROPS["C07"] = dict(
+    level="proof",
+    runs=[dict(bin="c07")],
+    quick=dict(n=1500, shards=16),
+    thorough=dict(n=60000, shards=128, run_timeout=3000, coq_case_timeout=3000),
+    trusted_base=[
+        "model coq/C07/Model.v of isomorphism/src/{dataset,iso_term,hash}.rs (hand-written); the 64-bit hash is a parameter of every theorem (any function of what the code feeds to the hasher), so the theorems hold for SipHash and for the FNV stand-in used to RUN the model",
+        "sort_unstable is modelled by insertion sort; theorem gsort_perm_eq shows the sorted key sequence is independent of the sorting algorithm",
+        "termination of the refinement loop is NOT proved for arbitrary hash functions (the real loop is unbounded; the model uses fuel and answers None when exhausted)",
+    ],
+    assumptions=["terms are well-formed (C02's wf)", "Term::hash is a function of the Term::eq class (C02)"],
+)
